@@ -44,6 +44,7 @@ class Runner:
         self.batches = 0
         self.programs_run = 0
         self.nctor = 0
+        self.max_timeout = None     # set by main: 300 s quick, 3600 thorough
         self.extra_env = {}
         self.pythonpath_prefix = []
 
@@ -72,6 +73,8 @@ class Runner:
         programs = list(programs)
         if not programs:
             return {}
+        if self.max_timeout:
+            timeout = min(timeout, self.max_timeout)
         n = shards or min(self.workers, max(1, len(programs) // 4))
         chunks = [programs[i::n] for i in range(n)]
         procs = []
